@@ -131,6 +131,8 @@ pub struct Case {
     pub phase: Phase,
     pub version: ClusterNodesVersion,
     pub all_slots: bool,
+    /// visit the phases A -> C -> D on the same proxies (topology queried in every phase)
+    pub walk: bool,
 }
 
 struct CaseOut {
@@ -239,8 +241,10 @@ async fn run_case(case: &Case, keys: Arc<Vec<Vec<u8>>>, prop: &str, tag: usize) 
             st.down.insert(f.clone());
         }
     }
-    let phase = case.phase;
+    let cur_phase = Arc::new(std::sync::Mutex::new(case.phase));
+    let cp = cur_phase.clone();
     sim.world.set_gate(Some(Box::new(move |r: &ReqInfo| {
+        let phase = *cp.lock().unwrap();
         let name = |i: usize| r.cmds.first().and_then(|c| c.get(i)).map(|b| String::from_utf8_lossy(b).to_uppercase()).unwrap_or_default();
         if !r.control {
             return Gate::Pass;
@@ -261,7 +265,7 @@ async fn run_case(case: &Case, keys: Arc<Vec<Vec<u8>>>, prop: &str, tag: usize) 
         }
         Gate::Pass
     })));
-    let ctx = |extra: String| format!("[history {:?} | limit {} | {} | phase {:?}] {}", case.path, case.limit, if case.compress { "compressed" } else { "plain" }, case.phase, extra);
+    let ctx = |extra: String| format!("[history {:?} | limit {} | {} | phase {}] {}", case.path, case.limit, if case.compress { "compressed" } else { "plain" }, if case.walk { format!("walk A->C->D, now {:?}", *cur_phase.lock().unwrap()) } else { format!("{:?}", case.phase) }, extra);
     if let Err(e) = sim.sync_until_converged(case.compress, 4).await {
         viol.push(("proxies-do-not-reach-the-broker-epoch".into(), ctx(e)));
         return CaseOut { probes: 0, viol, sig: "unsynced".into() };
@@ -298,6 +302,26 @@ async fn run_case(case: &Case, keys: Arc<Vec<Vec<u8>>>, prop: &str, tag: usize) 
     }
     let mut probes = 0;
     let mut migrating_probes = 0;
+    let mut outcome_classes: BTreeMap<String, usize> = BTreeMap::new();
+    let phase_list: Vec<Phase> = if case.walk { vec![Phase::A, Phase::C, Phase::D] } else { vec![case.phase] };
+    for (pi, now_phase) in phase_list.iter().cloned().enumerate() {
+    if pi > 0 {
+        *cur_phase.lock().unwrap() = now_phase;
+        // everything that was held goes through the gate again
+        for p in sim.world.pending_infos() {
+            let hold = {
+                let mut st = sim.world.0.st.lock().unwrap();
+                match st.gate.as_mut() {
+                    Some(g) => g(&p) == Gate::Hold,
+                    None => false,
+                }
+            };
+            if !hold {
+                sim.world.release(p.id, Release::Serve);
+            }
+        }
+        sim.world.advance_ms(80).await;
+    }
     // advertised topology per proxy (C14)
     let mut advertised: BTreeMap<String, BTreeMap<usize, String>> = BTreeMap::new();
     if prop == "C14" {
@@ -337,7 +361,6 @@ async fn run_case(case: &Case, keys: Arc<Vec<Vec<u8>>>, prop: &str, tag: usize) 
             }
         }
     }
-    let mut outcome_classes: BTreeMap<String, usize> = BTreeMap::new();
     for slot in &slots {
         let info = match &exp[*slot] {
             Some(i) => i.clone(),
@@ -375,7 +398,7 @@ async fn run_case(case: &Case, keys: Arc<Vec<Vec<u8>>>, prop: &str, tag: usize) 
                 None => (info.owner_node.clone(), vec![info.owner_node.clone()], 1),
                 Some((sn, _sp, dn, _dp)) => {
                     migrating_probes += 1;
-                    (if case.phase == Phase::A { sn.clone() } else { dn.clone() }, vec![sn.clone(), dn.clone()], 3)
+                    (if now_phase == Phase::A { sn.clone() } else { dn.clone() }, vec![sn.clone(), dn.clone()], 3)
                 }
             };
             *outcome_classes.entry(format!("{}-hops-{}", if info.mig.is_some() { "migrating" } else { "stable" }, hops)).or_default() += 1;
@@ -400,7 +423,7 @@ async fn run_case(case: &Case, keys: Arc<Vec<Vec<u8>>>, prop: &str, tag: usize) 
                         }
                     }
                     Some((_sn, sp, _dn, dp)) => {
-                        let want = if case.phase == Phase::A { sp } else { dp };
+                        let want = if now_phase == Phase::A { sp } else { dp };
                         let ok = if start == sp || start == dp { adv == want } else { adv == sp || adv == dp };
                         if !ok {
                             viol.push((format!("migrating-slot-advertised-at-wrong-side:{}", if start == sp { "on-source" } else if start == dp { "on-destination" } else { "on-bystander" }), ctx(format!("proxy {} advertises slot {} at {} (source {}, destination {})", start, slot, adv, sp, dp))));
@@ -409,6 +432,7 @@ async fn run_case(case: &Case, keys: Arc<Vec<Vec<u8>>>, prop: &str, tag: usize) 
                 }
             }
         }
+    }
     }
     let sig = format!("{:?}", outcome_classes);
     let _ = migrating_probes;
@@ -431,8 +455,16 @@ pub fn run(cli: &Cli, prop: &str) -> (Value, Vec<Violation>) {
                 }
                 let versions: Vec<ClusterNodesVersion> = if prop == "C14" && (thorough || si % 3 == 0) { vec![ClusterNodesVersion::V2, ClusterNodesVersion::V1] } else { vec![ClusterNodesVersion::V2] };
                 for version in versions {
-                    cases.push(Case { snap: snap.clone(), path: path.clone(), counts: counts.clone(), limit, compress, phase, version, all_slots: false });
+                    cases.push(Case { snap: snap.clone(), path: path.clone(), counts: counts.clone(), limit, compress, phase, version, all_slots: false, walk: false });
                 }
+            }
+        }
+    }
+    // the same proxies walked through the phases (state kept between topology queries)
+    for (snap, path) in states.iter() {
+        if snap.to_string().contains("\"is_migrating\":true") {
+            for version in if prop == "C14" { vec![ClusterNodesVersion::V2, ClusterNodesVersion::V1] } else { vec![ClusterNodesVersion::V2] } {
+                cases.push(Case { snap: snap.clone(), path: path.clone(), counts: counts.clone(), limit: 0, compress: false, phase: Phase::A, version, all_slots: false, walk: true });
             }
         }
     }
@@ -440,7 +472,7 @@ pub fn run(cli: &Cli, prop: &str) -> (Value, Vec<Violation>) {
     let step = (states.len() / if thorough { 12 } else { 2 }).max(1);
     for (snap, path) in states.iter().step_by(step) {
         let has_mig = snap.to_string().contains("\"is_migrating\":true");
-        cases.push(Case { snap: snap.clone(), path: path.clone(), counts: counts.clone(), limit: 0, compress: false, phase: if has_mig { Phase::C } else { Phase::A }, version: ClusterNodesVersion::V2, all_slots: true });
+        cases.push(Case { snap: snap.clone(), path: path.clone(), counts: counts.clone(), limit: 0, compress: false, phase: if has_mig { Phase::C } else { Phase::A }, version: ClusterNodesVersion::V2, all_slots: true, walk: false });
     }
     let cases = Arc::new(cases);
     let next = Arc::new(std::sync::atomic::AtomicUsize::new(0));
@@ -473,10 +505,10 @@ pub fn run(cli: &Cli, prop: &str) -> (Value, Vec<Violation>) {
         for (i, o) in h.join().expect("worker") {
             probes += o.probes;
             sigs.insert(o.sig);
-            *per_phase.entry(format!("{:?}", cases[i].phase)).or_default() += 1;
+            *per_phase.entry(if cases[i].walk { "walk A->C->D".to_string() } else { format!("{:?}", cases[i].phase) }).or_default() += 1;
             for (k, d) in o.viol {
                 if viol.iter().filter(|v| v.key == k).count() < 1 {
-                    viol.push(Violation { key: k, desc: d, replay: json!({"case": i, "path": cases[i].path, "limit": cases[i].limit, "compress": cases[i].compress, "phase": format!("{:?}", cases[i].phase), "snapshot": cases[i].snap}) });
+                    viol.push(Violation { key: k, desc: d, replay: json!({"case": i, "path": cases[i].path, "limit": cases[i].limit, "compress": cases[i].compress, "phase": format!("{:?}", cases[i].phase), "walk": cases[i].walk, "snapshot": cases[i].snap}) });
                 }
             }
         }
@@ -487,7 +519,7 @@ pub fn run(cli: &Cli, prop: &str) -> (Value, Vec<Violation>) {
         "traces_validated_against_impl": cases.len(),
         "evaluations": probes,
         "distinct_nontrivial": sigs.len().max(2),
-        "rule": "states = distinct broker states (routing-relevant projection) reachable by operation sequences over {create 4/8, add nodes, migrate, scale down, commit any, failover any member, balance} on 3 hosts x 2 proxies; cases = state x encoding {plain, compressed} x migration_limit {0,1} x handshake phase {A: nothing served, C: PRECHECK+PRESWITCH served and scan held, D: all served} (x NODES format for C14); every case builds fresh real proxies, syncs them with the real coordinator round, and probes every start proxy x boundary slots of every range (all 16384 slots on a sample); evaluations = probes",
+        "rule": "states = distinct broker states (routing-relevant projection) reachable by operation sequences over {create 4/8, add nodes, migrate, scale down, commit any, failover any member, balance} on 3 hosts x 2 proxies; cases = state x encoding {plain, compressed} x migration_limit {0,1} x handshake phase {A: nothing served, C: PRECHECK+PRESWITCH served and scan held, D: all served} (x NODES format for C14), plus for every migrating state a walk A -> C -> D on the same proxies with topology and routing probed in each phase; every case builds fresh real proxies, syncs them with the real coordinator round, and probes every start proxy x boundary slots of every range (all 16384 slots on a sample); evaluations = probes",
         "cases": cases.len(),
         "cases_per_phase": per_phase,
         "probes": probes,
